@@ -637,11 +637,14 @@ impl Writer {
     /// Updates the active file ID and open a new data file with the new active ID.
     #[tracing::instrument(level = "debug", skip(self))]
     fn new_active_datafile(&mut self, fileid: u64) -> Result<(), Error> {
-        self.active_fileid = fileid;
-        self.writer = LogWriter::new(log::create(utils::datafile_name(
+        // Only switch to the new file once it has been created, otherwise new entries keep going
+        // to the old file while the KeyDir is told they are in a file that does not exist
+        let writer = LogWriter::new(log::create(utils::datafile_name(
             self.ctx.conf.path.as_path(),
-            self.active_fileid,
+            fileid,
         ))?)?;
+        self.active_fileid = fileid;
+        self.writer = writer;
         self.written_bytes = 0;
         Ok(())
     }
